@@ -139,6 +139,12 @@ EmittedAdjusted(raw, em) ==
 (* with data yields data.                                                  *)
 EmittedNonEmpty(raw, em) == AllNum(raw) # {} => Len(em.ts) > 0
 
+(* Title of C37: "downsampled counters preserve the raw counter's increase".  Read over the   *)
+(* whole series, the iterator therefore ends on the fully adjusted last raw value.             *)
+IncreasePreserved(raw, em) ==
+    AllNum(raw) # {} /\ Len(em.ts) > 0 =>
+        LET tab == AdjTable(raw) IN em.vs[Len(em.vs)] = tab[Len(tab)]
+
 (* ---- C38 ---- *)
 (* "preserves the total sample count, the total sum, the overall minimum   *)
 (* and the overall maximum of every series".                               *)
@@ -153,6 +159,13 @@ TotalsConserved(inC, outC) ==
 (* "keeps output timestamps ordered within the input's time span".  *)
 OutputsOrdered(outC) == StrictlyAscending(Flat(outC, "ts"))
 OutputsWithin(outC, lo, hi) == LET T == Flat(outC, "ts") IN \A j \in DOMAIN T : lo <= T[j] /\ T[j] <= hi
+
+(* The series' totals can only be preserved if the output reaches the end of the input: the  *)
+(* window (at the output resolution r) of the last input sample has an output, and it is the  *)
+(* last one.  (Any stamping inside the window is accepted: its end, the last input time, ...) *)
+LastWindowHasOutput(inC, outC, r) ==
+    LET Ti == Flat(inC, "ts")  To == Flat(outC, "ts") IN
+    Ti # <<>> => To # <<>> /\ WinLo(To[Len(To)], r) = WinLo(Ti[Len(Ti)], r)
 
 (* ======================= algorithm level =============================== *)
 (* Transcription of downsample.go for float series.                        *)
